@@ -228,8 +228,84 @@ def gen_line(rng, R):
     return ('LS', pts), 'line'
 
 
+def translate_g(g, dx, dy):
+    return map_geom(g, lambda p: (p[0] + dx, p[1] + dy))
+
+
+def gen_related(rng, R, kind):
+    """3..6 elements with mixed relations; every new element is related to a RANDOM earlier one (overlapping, equal, sharing an
+    edge, touching in a point, contained, far away), then the element order is permuted: interacting elements end up separated
+    by non-interacting ones.  kind: 'MPG' | 'MLS' | 'GC'"""
+    n = rng.randint(3, 6)
+    rels = []
+    def base_poly():
+        r = rng.random()
+        if r < 0.6:
+            w, h = rng.randint(2, R + 2), rng.randint(2, R + 2); return ('PG', [rect(0, 0, w, h)]), (w, h)
+        if r < 0.8:
+            w, h = rng.randint(2, R + 2), rng.randint(2, R + 2); return ('PG', [[(0, 0), (w, 0), (0, h), (0, 0)]]), (w, h)
+        if r < 0.9:
+            w = rng.randint(4, R + 4); return ('PG', [rect(0, 0, w, w), rect(1, 1, w - 1, w - 1)[::-1]]), (w, w)
+        g, _ = gen_invalid_polygon(rng, R); vs = all_vals(g); return g, (max(1, int(max(vs[0::2]))), max(1, int(max(vs[1::2]))))
+    def base_line():
+        r = rng.random()
+        if r < 0.5:
+            w = rng.randint(2, R + 2); return ('LS', [(0, 0), (w, 0)]), (w, 1)
+        if r < 0.8:
+            w, h = rng.randint(2, R + 2), rng.randint(1, R); return ('LS', [(0, 0), (w, 0), (w, h)]), (w, h)
+        g, _ = gen_line(rng, R); return g, (R, R)
+    items = []          # (geometry, origin, size)
+    far = 0
+    for i in range(n):
+        mk = base_poly if kind == 'MPG' or (kind == 'GC' and rng.random() < 0.6) else base_line
+        g, (w, h) = mk()
+        if not items:
+            items.append((g, (0, 0), (w, h))); rels.append('first'); continue
+        tg, (ox, oy), (tw, th) = rng.choice(items)
+        rel = rng.choice(['overlap', 'overlap', 'equal', 'edge', 'point', 'inside', 'far', 'far', 'collinear-overlap'])
+        rels.append(rel)
+        if rel == 'equal':
+            items.append((tg if rng.random() < 0.7 else map_geom(tg, lambda p: p), (ox, oy), (tw, th))); continue
+        if rel == 'overlap':
+            dx, dy = ox + rng.randint(1, max(1, tw - 1)), oy + rng.randint(0, max(0, th - 1))
+        elif rel == 'collinear-overlap':
+            dx, dy = ox + rng.randint(1, max(1, tw - 1)), oy
+        elif rel == 'edge':
+            dx, dy = ox + tw, oy + rng.randint(0, max(0, th - 1))
+        elif rel == 'point':
+            dx, dy = ox + tw, oy + th
+        elif rel == 'inside':
+            g, (w, h) = (('PG', [rect(0, 0, 1, 1)]), (1, 1)) if g[0] == 'PG' else (('LS', [(0, 0), (1, 0)]), (1, 1))
+            dx, dy = ox + rng.randint(0, max(0, tw - 1)), oy + rng.randint(0, max(0, th - 1))
+        else:
+            far += 1; dx, dy = far * 40 + rng.randint(0, 5), 40 * rng.choice([-1, 0, 1, 2])
+        items.append((translate_g(g, dx, dy), (dx, dy), (w, h)))
+    els = [it[0] for it in items]
+    r = rng.random()
+    if r < 0.55:
+        rng.shuffle(els)
+    elif r < 0.8:
+        # interacting elements as far apart in the list as possible: sort by relation, far-away fillers in the middle
+        fars = [e for e, rl in zip(els, rels) if rl == 'far']; near = [e for e, rl in zip(els, rels) if rl != 'far']
+        els = near[:1] + fars + near[1:]
+    if kind == 'GC' and rng.random() < 0.5:
+        # wrap runs of polygons into a MultiPolygon member, lines into a MultiLineString member
+        ps = [e for e in els if e[0] == 'PG']; ls = [e for e in els if e[0] == 'LS']
+        els = ([('MPG', ps)] if ps else []) + ([('MLS', ls)] if ls else [])
+        rng.shuffle(els)
+    label = 'related-%s-%s' % (kind.lower(), '+'.join(sorted(set(rels) - {'first'})))
+    return (kind, els), 'related-' + kind.lower()
+
+
 def gen_case_geom(rng):
     R = rng.choice([3, 6, 10])
+    k = rng.random()
+    if k < 0.10:
+        return gen_related(rng, R, 'MPG')
+    if k < 0.14:
+        return gen_related(rng, R, 'MLS')
+    if k < 0.18:
+        return gen_related(rng, R, 'GC')
     k = rng.random()
     if k < 0.12:
         g = gen_valid_polygon(rng, R); return g, 'valid-polygon'
@@ -354,7 +430,7 @@ def run(ctx):
     judge_all(ctx, drv, cases, shrink=not ctx.replay)
     st = ctx.notes.get('stats', {})
     if not ctx.replay:
-        for need in ['invalid-input', 'valid-input', 'nonfinite', 'collapse-kept', 'collapse-dropped', 'collection', 'table']:
+        for need in ['invalid-input', 'valid-input', 'nonfinite', 'collapse-kept', 'collapse-dropped', 'collection', 'table', 'related-multi']:
             if st.get(need, 0) == 0:
                 ctx.broken.append(dict(kind='generator', name='distribution ' + need, detail='no case of class %s was generated' % need))
     for c in cases[:4]:
@@ -577,6 +653,7 @@ def judge_case(ctx, c, line, o, pr, mres, tres, st):
     fin = finite(g)
     if not fin: st('nonfinite')
     if has_collection(g): st('collection')
+    if str(c.get('label', '')).startswith('related-'): st('related-multi')
     f9 = find_known(ctx, 'F9') if (lw and not fin) else None
     f2 = find_known(ctx, 'C17-F2') if (m == 'S' and ring_self_overlap(strip_nonfinite(g))) else None
     if o.startswith('READFAIL'):
